@@ -10,7 +10,7 @@ import itertools
 import time
 
 import z3
-from pyvc.values import FA
+from pyvc.values import FA, ExtAxioms
 
 from .values import (PyV, NONE, BoolS, IntS, LATTICE, Ref, ClsRef, Sym, SymV, SymB, SymI, SymS,
                      Unsupported, lift, lower, as_z3, wrap_bool)
@@ -193,14 +193,10 @@ class State:
         self.obligations = []
         self.counter = 0
         self.path_id = path_id
-        self.solver = z3.Solver()
-        self.solver.set('timeout', timeout_ms)
-        # feasibility only needs refutation: without MBQI a satisfiable query answers `unknown` at once,
-        # which is treated as feasible (sound over-approximation of the explored paths)
-        self.solver.set('smt.mbqi', False)
-        for ax in base_axioms:
-            self.solver.add(ax)
+        self.timeout_ms = timeout_ms
         self.base_axioms = list(base_axioms)
+        self.scopes = []
+        self._new_solver()
         self._lit = z3.Bool('!feasible')
         self.class_ids = {}
         self.class_by_id = {}
@@ -211,6 +207,71 @@ class State:
         self.notes = []
         self.choice_log = []
         self.assumptions_used = set()
+
+    def _new_solver(self):
+        self.solver = z3.Solver()
+        self.solver.set('timeout', self.timeout_ms)
+        # feasibility only needs refutation: without MBQI a satisfiable query answers `unknown` at once,
+        # which is treated as feasible (sound over-approximation of the explored paths)
+        self.solver.set('smt.mbqi', False)
+        # relevant extensionality only (values.ExtAxioms): sound for the only answer that is used here (unsat)
+        self.solver.set('smt.array.extensional', False)
+        self.ext = ExtAxioms()
+        for ax in self.base_axioms:
+            self.solver.add(ax)
+        # re-create the scope structure: the formulas added after the k-th push are pc[marks[k]:marks[k+1]] (+ extras)
+        marks = [m for m, _x in getattr(self, 'scopes', [])]
+        extras = [x for _m, x in getattr(self, 'scopes', [])]
+        lo = 0
+        for k, hi in enumerate(marks + [len(self.pc)]):
+            seg = list(self.pc[lo:hi])
+            for f in seg:
+                self.solver.add(f)
+            for ax in self.ext.axioms_for((list(self.base_axioms) if k == 0 else []) + seg):
+                self.solver.add(ax)
+            lo = hi
+            if k < len(marks):
+                self.solver.push()
+                for x in extras[k]:
+                    self.solver.add(x)
+
+    def push_scope(self, *extra):
+        """solver scope for a sub-computation that is rolled back; `extra` formulas are asserted in the scope without being
+        path-condition entries of their own"""
+        self.scopes.append((len(self.pc), list(extra)))
+        self.solver.push()
+        for x in extra:
+            self.solver.add(x)
+
+    def pop_scope(self):
+        self.scopes.pop()
+        self.solver.pop()
+
+    # ---- checkpoints (used when a contract turns out not to fit a call: the call is then inlined) ----------------
+    _CP_LISTS = ('pc', 'effects', 'obligations', 'taken', 'pending', 'choice_log', 'notes', 'script')
+    _CP_SETS = ('assumed_ids', 'assumptions_used')
+    _CP_SCALARS = ('counter', 'next_id', 'pos', 'fresh_exc')
+
+    def checkpoint(self):
+        cp = {k: list(getattr(self, k)) for k in self._CP_LISTS}
+        cp.update({k: set(getattr(self, k)) for k in self._CP_SETS})
+        cp.update({k: getattr(self, k) for k in self._CP_SCALARS})
+        cp['heap'] = {k: dict(v) for k, v in self.heap.items()}
+        cp['ghost'] = {k: (dict(v) if isinstance(v, dict) else v) for k, v in self.ghost.items()}
+        cp['class_ids'], cp['class_by_id'] = dict(self.class_ids), dict(self.class_by_id)
+        return cp
+
+    def restore(self, cp):
+        for k in self._CP_LISTS:
+            setattr(self, k, list(cp[k]))
+        for k in self._CP_SETS:
+            setattr(self, k, set(cp[k]))
+        for k in self._CP_SCALARS:
+            setattr(self, k, cp[k])
+        self.heap = {k: dict(v) for k, v in cp['heap'].items()}
+        self.ghost = {k: (dict(v) if isinstance(v, dict) else v) for k, v in cp['ghost'].items()}
+        self.class_ids, self.class_by_id = dict(cp['class_ids']), dict(cp['class_by_id'])
+        self._new_solver()
 
     # ---- naming ---------------------------------------------------------------------
     def fresh_name(self, hint):
@@ -283,6 +344,8 @@ class State:
         self.pc.append(formula)
         self.assumed_ids.add(formula.get_id())
         self.solver.add(formula)
+        for ax in self.ext.axioms_for([formula]):
+            self.solver.add(ax)
 
     def feasible(self, extra=None):
         # an assumption literal is always passed: it selects z3's incremental core, which (with MBQI
@@ -332,6 +395,8 @@ class State:
     def _decide(self, g):
         self.pc.append(g)
         self.solver.add(g)
+        for ax in self.ext.axioms_for([g]):
+            self.solver.add(ax)
 
     def branch(self, cond, label=''):
         """cond: python bool, SymB or z3 Bool -> python bool (forks when undetermined)"""
@@ -347,16 +412,17 @@ class State:
         return self.choose([cond, z3.Not(cond)], label) == 0
 
     # ---- obligations ----------------------------------------------------------------
-    def oblige(self, name, formula, **info):
+    def oblige(self, name, formula, pc=None, **info):
         if isinstance(formula, SymB):
             formula = formula.t
+        pc = self.pc if pc is None else pc
         if isinstance(formula, bool):
             if formula:
-                self.obligations.append(Obligation(name, self.pc, z3.BoolVal(True), self.path_id, info))
+                self.obligations.append(Obligation(name, pc, z3.BoolVal(True), self.path_id, info))
             else:
-                self.obligations.append(Obligation(name, self.pc, z3.BoolVal(False), self.path_id, info))
+                self.obligations.append(Obligation(name, pc, z3.BoolVal(False), self.path_id, info))
             return
-        self.obligations.append(Obligation(name, self.pc, formula, self.path_id, info))
+        self.obligations.append(Obligation(name, pc, formula, self.path_id, info))
 
     def oblige_fail(self, name, message, **info):
         """a structural (non-formula) failure: violated iff the path is feasible"""
@@ -380,6 +446,7 @@ class Snapshot:
     def __init__(self, heap, state):
         self.heap = heap
         self.state = state
+        self.pc_len = len(state.pc) if state is not None and hasattr(state, 'pc') else None
 
     def getf(self, ref, field):
         return self.heap[ref.id][field]
